@@ -113,6 +113,54 @@ def run_for(prop, src_root="/repo", jobs=None):
     }
 
 
+def _seed_one(args):
+    prop, d, src_root, kind = args
+    import shutil, subprocess, tempfile, importlib.util
+    patch = os.path.join(HERE_VERIF, kind, d, "patch.diff")
+    scratch = tempfile.mkdtemp(prefix="sa_seed_")
+    try:
+        subprocess.run(["cp", "-r", os.path.join(src_root, "ak"), scratch], check=True)
+        if os.path.isdir(os.path.join(src_root, "bin")):
+            subprocess.run(["cp", "-r", os.path.join(src_root, "bin"), scratch], check=True)
+        r = subprocess.run(f"patch -p1 -s < {patch}", shell=True, cwd=scratch, capture_output=True, text=True)
+        if r.returncode != 0:
+            return {"id": d, "result": "patch does not apply (the tree differs from the one the change was made on)"}
+        chk = _load_check()
+        code, cx, err = chk.run_property(prop, scratch, "quick", write=False, quiet=True)
+        return {"id": d, "exit": code, "rules_refuted": sorted({o.rule for o in cx.obs if not o.ok})[:6]}
+    except Exception as e:      # informational only
+        return {"id": d, "result": f"{type(e).__name__}: {e}"}
+    finally:
+        shutil.rmtree(scratch, ignore_errors=True)
+
+
+HERE_VERIF = os.path.dirname(os.path.dirname(os.path.abspath(__file__)))
+
+
+def run_seeded(prop, src_root="/repo"):
+    """Re-check the stored realistic changes of this property (seeded defects must be refuted, neutral refactorings silent)."""
+    import json as _json
+    import multiprocessing as mp
+    jobs = []
+    for kind in ("seeded", "neutral"):
+        base = os.path.join(HERE_VERIF, kind)
+        if not os.path.isdir(base):
+            continue
+        for d in sorted(os.listdir(base)):
+            mp_ = os.path.join(base, d, "meta.json")
+            if os.path.exists(mp_) and _json.load(open(mp_)).get("property") == prop:
+                jobs.append((prop, d, src_root, kind))
+    if not jobs:
+        return {"total": 0}
+    with mp.get_context("fork").Pool(min(16, len(jobs))) as pool:
+        res = pool.map(_seed_one, jobs)
+    seeded = [r for r, j in zip(res, jobs) if j[3] == "seeded"]
+    neutral = [r for r, j in zip(res, jobs) if j[3] == "neutral"]
+    return {"seeded_total": len(seeded), "seeded_refuted": sum(1 for r in seeded if r.get("exit") == 1),
+            "neutral_total": len(neutral), "neutral_silent": sum(1 for r in neutral if r.get("exit") == 0),
+            "neutral_undecided": sum(1 for r in neutral if r.get("exit") == 2), "details": res}
+
+
 def main():
     props = [a.upper() for a in sys.argv[1:] if not a.startswith("-")] or PROPS
     src = os.environ.get("VERIF_REPO", "/repo")
